@@ -214,7 +214,10 @@ def one(ctx, i, rep=None):
                         ctx.count('outward_steps')
                         nontriv = True
                 if ctx.evaluations < 150000:
-                    ctx.case((text, id(o) % 1000, clsname, q), nontriv, None)
+                    ctx.case((text, id(o) % 1000, clsname, q), nontriv,
+                             {'model': text[:400], 'from': '%s %r' % (type(o).__name__, getattr(o, 'name', None)), 'name': '.'.join(q),
+                              'target_class': clsname, 'expected': describe(exp), 'got': describe(got)}
+                             if (nontriv and len(ctx.samples) < 2) else None)
                 else:
                     ctx.evaluations += 1
                 if got is not exp:
